@@ -16,10 +16,20 @@ same transaction for every plan, and the same block for every grouping it is bui
     de-aggregation of every known subset of an independent family returns the remainder,
     hydrate(compact(block)) = block and from_reward(groups) = block for every grouping whose groups
     exist, block valid; careless cut-through variants are told apart by the families (CarelessKilled).
+    Offsets are integers: families whose offsets cancel (o and -o, a triple, a cancelling group inside
+    a family with a non-zero total, the family against the previous header's total; library L7) have
+    the zero offset as their sum and nothing is refused for it (CancellationsCovered). Blocks are built
+    on top of every previous offset in PrevOffsets (0 and a non-zero one). Library transactions carry
+    their inputs as CommitOnly, FeaturesAndCommit(plain) or FeaturesAndCommit(coinbase) (field iv):
+    no result shows it (VariantsCovered: all three side by side in one family).
+    Hydration also runs on the node's own route (Retrieve / HydrateViaPool): a pool holding the family
+    in the grouping, between unrelated entries, is asked by kernel short id; exactly the grouping comes
+    back, nothing missing; a pool lacking one group reports that group's kernels missing.
 (A) Every family is realised with real commitments / bulletproofs / signatures; the real
     transaction::aggregate is run for every plan, transaction::deaggregate for every subset,
-    Block::from_reward -> CompactBlock::from -> Block::hydrate_from for every grouping, and the
-    results are projected back to model values and compared with the specification's.
+    Block::from_reward -> CompactBlock::from -> Block::hydrate_from for every grouping, and
+    compact block (several nonces) -> Pool::retrieve_transactions -> Block::hydrate_from for every
+    grouping; the results are projected back to model values and compared with the specification's.
 """
 import json, os, collections, threading
 import vlib
@@ -110,6 +120,45 @@ def pick_builds(c):
     return picks
 
 
+NONCES = 3          # compact-block nonces per grouping on the route through the pool
+
+
+def nonces_for(c):
+    """0 = the nonce CompactBlock::from draws; the others are a function of VERIF_SEED and the family"""
+    import hashlib
+    out = [0]
+    for k in range(1, NONCES):
+        h = hashlib.sha256(("%d:%d:%s:%d" % (vlib.seed(), c["lib"], c["fam"], k)).encode()).digest()
+        out.append(str(int.from_bytes(h[:8], "big") | 1))
+    return out
+
+
+def blocks_of(c):
+    """the block expectations of a case: one per previous offset (`blocks`); `block` in older replay files"""
+    if "blocks" in c:
+        return c["blocks"]
+    return [c["block"]] if c.get("block") and not c["block"].get("none") else []
+
+
+def pool_drop(c, i):
+    """which group the lacking pool lacks for grouping i (PlanChecks states the outcome for the first and the last)"""
+    vp = c.get("via_pool")
+    if not vp or vp[i].get("none"):
+        return None
+    return 0 if i % 2 == 0 else len(vp[i]["parts"]) - 1
+
+
+def hydrate_ix(c, k):
+    """indices of the groupings block k of the case is hydrated from"""
+    n = len(c["plans"])
+    if k == 0 or n <= 6:
+        return list(range(n))
+    step = max(1, n // 6)
+    start = (vlib.seed() * 13 + c["lib"] * 5 + len(c["fam"])) % step if "hydrate_start" not in c else c["hydrate_start"]
+    c["hydrate_start"] = start
+    return list(range(start, n, step))[:6]
+
+
 def to_harness_case(c):
     n = len(c["fam"])
     plans = [zero_based(p) for p in c["plans"]]
@@ -119,11 +168,22 @@ def to_harness_case(c):
     mks = [flat, [list(reversed(flat))]] if n >= 2 else [flat]
     h["deaggs"] = [{"mk": mk, "sub": zero_based(d["sub"])} for d in c["deaggs"] for mk in mks]
     if c["aggregable"]:
-        b = c["block"]
         if "builds" not in c:              # a replayed case keeps the groupings it was recorded with
             c["builds"] = pick_builds(c)
-        h["block"] = {"cb_out": b["cb_out"], "cb_kern": b["cb_kern"], "height": b["height"], "prev": b["prev"],
-                      "groupings": plans, "builds": [plans[i] for i in c["builds"]]}
+        if "nonces" not in c:
+            c["nonces"] = nonces_for(c)
+        h["bystanders"] = c.get("bystanders", [])
+        h["blocks"] = []
+        for k, b in enumerate(blocks_of(c)):
+            # the body of the block does not depend on the previous offset: every grouping is hydrated (directly and
+            # through the pool) on the first block, a few seed-chosen ones on the others
+            ix = hydrate_ix(c, k)
+            hb = {"cb_out": b["cb_out"], "cb_kern": b["cb_kern"], "height": b["height"], "prev": b["prev"],
+                  "groupings": [plans[i] for i in ix], "builds": [plans[i] for i in c["builds"]]}
+            if k == 0 and c.get("via_pool"):
+                hb["nonces"] = c["nonces"]
+                hb["pool_drop"] = [pool_drop(c, i) for i in ix]
+            h["blocks"].append(hb)
     return h, len(mks)
 
 
@@ -138,12 +198,27 @@ def judge(c, r, viol, counts, obs=None):
     ag = c["aggregable"]
     lab = family_label(c)
     sfx = shape_suffix(c)
+    cancel = sorted(c.get("cancel") or [])      # forms in which the family's offsets cancel (Agg!CancelForms)
+    if cancel:
+        counts["families_offsets_cancel"] += 1
+        for f in cancel:
+            counts["families_offsets_cancel_" + f] += 1
     want = canon_expect(c["expect"], pvf)       # None: the family has no aggregate (refused shape)
     if (want is None) == ag:
         raise ToolError("Agg case inconsistent: aggregable=%s expect=%s" % (ag, c["expect"]))
-    if not r["operands_ok"]:
-        raise ToolError("a library transaction is refused by the real Transaction::validate: %s" % json.dumps(c["txs"])[:600])
+    opsok = r["operands_ok"]
+    if not opsok:
+        # the real validate refuses a library transaction the specification holds valid (OperandsValid): not a verdict on the
+        # aggregator (a tool error at the end of the run unless it shows as one): its results are still compared, only the
+        # validity of what it returns is not demanded
+        counts["families_operand_refused"] += 1
+        counts.setdefault("first_operand_refused", json.dumps(c["txs"])[:600])
     counts["families_" + lab] += 1
+    ivs = {t.get("iv", "co") for t in c["txs"]}
+    for v in ivs:
+        counts["operands_iv_" + v] += 1
+    if len(ivs) > 1:
+        counts["families_mixed_input_variants"] += 1
     real_ok, real_refused = [], []              # among the plans the specification says exist / are refused
     projs, choices = {}, {}
     for i, (plan, pr) in enumerate(zip(c["plans"], r["plans"])):
@@ -170,7 +245,12 @@ def judge(c, r, viol, counts, obs=None):
             continue
         if pr["res"] != "ok":
             real_ok.append((plan, "err"))
-            if c["nondegenerate"]:
+            if cancel and "InvalidSecretKey" in (pr.get("err") or ""):
+                # the family's offsets cancel somewhere on the way: the sum is the zero offset, not an error
+                viol("agg:aggregate:offsets_cancel:invalid_secret_key",
+                     "aggregate failed (%s) on valid transactions whose offsets cancel (%s): the sum is the zero offset"
+                     % (pr.get("err"), "+".join(cancel)), {"plan": plan, "offsets": [t["off"] for t in c["txs"]], "real": pr})
+            elif c["nondegenerate"]:
                 viol("agg:aggregate:failed:%s%s" % (sh, sfx), "aggregate failed (%s %s) on a family that has an aggregate (%s)"
                      % (pr["res"], pr.get("err"), lab), {"plan": plan, "hot": c["hot"], "real": pr})
             continue
@@ -183,7 +263,7 @@ def judge(c, r, viol, counts, obs=None):
             viol("agg:aggregate:mismatch:%s:%s%s" % (diff_field(want, got), sh, sfx),
                  "aggregate result differs from the specification in its %s" % diff_field(want, got),
                  {"plan": plan, "want": want, "got": got})
-        elif pr["valid"] != "ok" and c["nondegenerate"] and n >= 1:
+        elif pr["valid"] != "ok" and c["nondegenerate"] and n >= 1 and opsok:
             viol("agg:aggregate:result_invalid:%s%s" % (sh, sfx), "aggregate of valid transactions does not validate (%s)" % pr.get("verr"),
                  {"plan": plan, "real": pr})
         else:
@@ -217,11 +297,21 @@ def judge(c, r, viol, counts, obs=None):
         for m in range(k):
             dr = r["deaggs"][j * k + m]
             counts["deaggregations"] += 1
+            if cancel:
+                counts["deaggregations_offsets_cancel"] += 1
+                if dwant["off"] == 0 and sub_off != 0:
+                    counts["deaggregations_remainder_cancels"] += 1
+                if sub_off == 0 and any(c["txs"][x - 1]["off"] for x in d["sub"]):
+                    counts["deaggregations_known_subset_cancels"] += 1
             if dr["res"] != "ok":
                 if dwant["off"] == 0 and sub_off != 0:
                     viol("agg:deaggregate:err:remainder_offset_zero",
                          "deaggregate fails (%s) when the remainder's offset is zero and the subset's is not" % dr.get("err"),
                          {"sub": d["sub"], "want": dwant, "real": dr})
+                elif cancel and "InvalidSecretKey" in (dr.get("err") or ""):
+                    viol("agg:deaggregate:offsets_cancel:invalid_secret_key",
+                         "deaggregate failed (%s) on a family whose offsets cancel (%s)" % (dr.get("err"), "+".join(cancel)),
+                         {"sub": d["sub"], "offsets": [t["off"] for t in c["txs"]], "want": dwant, "real": dr})
                 elif c["nondegenerate"]:
                     viol("agg:deaggregate:failed", "deaggregate failed (%s %s)" % (dr["res"], dr.get("err")),
                          {"sub": d["sub"], "want": dwant, "real": dr})
@@ -231,97 +321,200 @@ def judge(c, r, viol, counts, obs=None):
                 viol("agg:deaggregate:mismatch:%s" % diff_field(dwant, got),
                      "deaggregate does not return the remainder (%s differ)" % diff_field(dwant, got),
                      {"sub": d["sub"], "want": dwant, "got": got})
-            elif dr["valid"] != "ok" and c["nondegenerate"]:
+            elif dr["valid"] != "ok" and c["nondegenerate"] and opsok:
                 viol("agg:deaggregate:result_invalid", "remainder does not validate (%s)" % dr.get("verr"), {"sub": d["sub"], "real": dr})
             else:
                 counts["deaggregations_equal"] += 1
-    # block / compact / hydrate
+    # block / compact / hydrate, on top of every previous offset
     if ag:
-        br = r["block"]
-        b = c["block"]
-        bwant = canon_expect(b["expect"], pvf)
-        bwant.pop("off")
-        flat_plan = list(range(1, n + 1))
-        build_plans = [flat_plan] + [c["plans"][i] for i in c.get("builds", [])]
-        builds = br.get("builds") or [{"res": br["res"], "err": br.get("err")}]
-        for j, (bp, bd) in enumerate(zip(build_plans, builds)):
-            counts["block_builds"] += 1
-            sh = shape(bp)
-            if bd["res"] != "ok":
-                if c["nondegenerate"]:
-                    viol("agg:block:%s%s" % ("parts_failed" if bd["res"] == "parts_err" else "from_reward_failed",
-                                             (":" + sh + sfx) if (sfx or j) else ""),
-                         "Block::from_reward failed (%s %s) on transactions that have an aggregate (%s)" % (bd["res"], bd.get("err"), lab),
-                         {"built_from": bp, "real": bd})
-            elif pvf and bd.get("same_body") is False and bd.get("same_total") and canon_real(bd["proj"], with_off=False, any_proof=True) == bwant:
-                counts["block_builds_other_proof"] += 1
-                obs("agg:block:proof_choice_grouping_dependent%s" % sfx,
-                    "blocks built from different groupings of the same transactions carry different (valid) range proofs for a re-created commitment",
-                    {"built_from": bp, "reference": build_plans[br.get("ref", 0)]})
-            elif bd.get("same_body") is False or bd.get("same_total") is False:
-                f = "total_offset" if bd.get("same_body") else (diff_field(bwant, canon_real(bd["proj"], with_off=False)) or "bytes")
-                viol("agg:block:grouping_dependent:%s:%s%s" % (f, sh, sfx),
-                     "the block built from pre-aggregated groups differs from the block built from the other grouping",
-                     {"built_from": bp, "reference": build_plans[br.get("ref", 0)], "real": bd})
-            else:
-                counts["block_builds_equal"] += 1
-        if br["res"] != "ok":
-            return
-        got = canon_real(br["proj"], with_off=False, any_proof=pvf)
-        if got != bwant or br["total"] != b["total"]:
-            f = diff_field(bwant, got) or "total_offset"
-            viol("agg:block:mismatch:%s%s" % (f, sfx), "block built from the transactions differs from the specification (%s)" % f,
-                 {"want": bwant, "want_total": b["total"], "got": got, "got_total": br["total"]})
-        elif br["valid"] != "ok" and c["nondegenerate"]:
-            viol("agg:block:invalid%s" % sfx, "block built from valid transactions does not validate (%s)" % br.get("verr"), {"real": br})
-        for i, (plan, h) in enumerate(zip(c["plans"], br["hydrated"])):
-            sh = shape(plan)
-            if not c["parts_ok"][i]:
-                # a group of this grouping has no aggregate: there is nothing to hydrate from
-                counts["hydrations_skipped_group_refused"] += 1
-                if h["res"] != "parts_err":
-                    counts["hydrations_group_refused_but_real_built_it"] += 1     # flagged at the plan above
-                continue
-            counts["hydrations"] += 1
-            if not cf:
-                counts["hydrations_shape_" + lab] += 1
-            if h["res"] == "parts_err":
-                counts["hydrations_parts_failed"] += 1                              # flagged at the sub-family's own case
-                if c["nondegenerate"]:
-                    viol("agg:hydrate:parts_failed:%s%s" % (sh, sfx), "a group of the grouping could not be pre-aggregated (%s)" % h.get("err"),
-                         {"grouping": plan, "real": h})
-            elif h["res"] != "ok":
-                viol("agg:hydrate:failed:%s%s" % (sh, sfx), "hydrate_from failed (%s)" % h.get("err"),
-                     {"grouping": plan, "block_built_from": build_plans[br.get("ref", 0)], "hot": c["hot"], "real": h})
-            elif pvf and not h["same_body"] and "proj" in h and canon_real(h["proj"], with_off=False, any_proof=True) == bwant:
-                counts["hydrations_other_proof"] += 1
-                obs("agg:hydrate:proof_differs:%s%s" % (sh, sfx),
-                    "the hydrated block carries another (valid) range proof for a re-created commitment than the block: not the identical block",
-                    {"grouping": plan, "block_built_from": build_plans[br.get("ref", 0)],
-                     "block_proofs": proof_choice(br["proj"]), "hydrated_proofs": proof_choice(h["proj"])})
-            elif not h["same_body"]:
-                hp = canon_real(h["proj"], with_off=False, any_proof=pvf) if "proj" in h else {}
-                viol("agg:hydrate:body_differs:%s:%s%s" % (diff_field(bwant, hp), sh, sfx),
-                     "hydrated block body is not the block's body", {"grouping": plan, "want": bwant, "got": hp})
-            elif not h["same_hash"]:
-                viol("agg:hydrate:header_differs:%s%s" % (sh, sfx), "hydrated block header differs", {"grouping": plan})
-            elif not h["ids_ok"] or h["full_out"] != 1 or h["full_kern"] != 1:
-                viol("agg:compact:short_ids_or_full_elements", "compact block does not list the coinbase elements in full and "
-                     "the other kernels by short id", {"grouping": plan, "real": h})
-            else:
-                counts["hydrations_identical"] += 1
+        rbs = r["blocks"] if "blocks" in r else [r["block"]]
+        bs = blocks_of(c)
+        if len(rbs) != len(bs):
+            raise ToolError("Agg case %s: %d block results for %d blocks" % (c.get("id"), len(rbs), len(bs)))
+        for k, (b, br) in enumerate(zip(bs, rbs)):
+            judge_block(c, b, br, viol, counts, obs, hydrate_ix(c, k), opsok)
+
+
+def judge_block(c, b, br, viol, counts, obs, ix, opsok=True):
+    pvf = bool(c.get("proof_variants"))
+    n = len(c["fam"])
+    cf = c["conflict_free"]
+    lab = family_label(c)
+    sfx = shape_suffix(c)
+    cancel = sorted(c.get("cancel") or [])
+    psfx = "" if b["prev"] != 0 else ":prev=0"
+    counts["blocks"] += 1
+    counts["blocks_prev_%s" % ("zero" if b["prev"] == 0 else "nonzero")] += 1
+    if b["total"] == 0 and b["prev"] != 0:
+        counts["blocks_total_zero_prev_nonzero"] += 1
+    if br["res"] == "panic":
+        viol("agg:block:panic%s" % sfx, "building / hydrating the block panicked", {"prev": b["prev"]})
+        return
+    bwant = canon_expect(b["expect"], pvf)
+    bwant.pop("off")
+    flat_plan = list(range(1, n + 1))
+    build_plans = [flat_plan] + [c["plans"][i] for i in c.get("builds", [])]
+    builds = br.get("builds") or [{"res": br["res"], "err": br.get("err")}]
+    for j, (bp, bd) in enumerate(zip(build_plans, builds)):
+        counts["block_builds"] += 1
+        sh = shape(bp)
+        if bd["res"] != "ok":
+            if cancel and "InvalidSecretKey" in (bd.get("err") or ""):
+                viol("agg:block:offsets_cancel:invalid_secret_key",
+                     "Block::from_reward failed (%s) on valid transactions whose offsets cancel (%s, previous total %d)"
+                     % (bd.get("err"), "+".join(cancel), b["prev"]),
+                     {"built_from": bp, "prev": b["prev"], "offsets": [t["off"] for t in c["txs"]], "real": bd})
+            elif c["nondegenerate"]:
+                viol("agg:block:%s%s" % ("parts_failed" if bd["res"] == "parts_err" else "from_reward_failed",
+                                         (":" + sh + sfx) if (sfx or j) else ""),
+                     "Block::from_reward failed (%s %s) on transactions that have an aggregate (%s)" % (bd["res"], bd.get("err"), lab),
+                     {"built_from": bp, "real": bd})
+        elif pvf and bd.get("same_body") is False and bd.get("same_total") and canon_real(bd["proj"], with_off=False, any_proof=True) == bwant:
+            counts["block_builds_other_proof"] += 1
+            obs("agg:block:proof_choice_grouping_dependent%s" % sfx,
+                "blocks built from different groupings of the same transactions carry different (valid) range proofs for a re-created commitment",
+                {"built_from": bp, "reference": build_plans[br.get("ref", 0)]})
+        elif bd.get("same_body") is False or bd.get("same_total") is False:
+            f = "total_offset" if bd.get("same_body") else (diff_field(bwant, canon_real(bd["proj"], with_off=False)) or "bytes")
+            viol("agg:block:grouping_dependent:%s:%s%s" % (f, sh, sfx),
+                 "the block built from pre-aggregated groups differs from the block built from the other grouping",
+                 {"built_from": bp, "reference": build_plans[br.get("ref", 0)], "real": bd})
+        else:
+            counts["block_builds_equal"] += 1
+    if br["res"] != "ok":
+        return
+    got = canon_real(br["proj"], with_off=False, any_proof=pvf)
+    if got != bwant or br["total"] != b["total"]:
+        f = diff_field(bwant, got) or "total_offset"
+        viol("agg:block:mismatch:%s%s%s" % (f, sfx, psfx), "block built from the transactions differs from the specification (%s)" % f,
+             {"want": bwant, "want_total": b["total"], "got": got, "got_total": br["total"]})
+    elif br["valid"] != "ok" and c["nondegenerate"] and opsok:
+        viol("agg:block:invalid%s%s" % (sfx, psfx), "block built from valid transactions does not validate (%s)" % br.get("verr"), {"real": br})
+    if len(ix) != len(br["hydrated"]):
+        raise ToolError("Agg case %s: %d hydrations for %d groupings" % (c.get("id"), len(br["hydrated"]), len(ix)))
+    for i, h in zip(ix, br["hydrated"]):
+        plan = c["plans"][i]
+        sh = shape(plan)
+        if not c["parts_ok"][i]:
+            # a group of this grouping has no aggregate: there is nothing to hydrate from
+            counts["hydrations_skipped_group_refused"] += 1
+            if h["res"] != "parts_err":
+                counts["hydrations_group_refused_but_real_built_it"] += 1     # flagged at the plan above
+            continue
+        counts["hydrations"] += 1
+        if not cf:
+            counts["hydrations_shape_" + lab] += 1
+        if h["res"] == "parts_err":
+            counts["hydrations_parts_failed"] += 1                              # flagged at the sub-family's own case
+            if cancel and "InvalidSecretKey" in (h.get("err") or ""):
+                viol("agg:hydrate:offsets_cancel:invalid_secret_key",
+                     "a group of the grouping could not be pre-aggregated (%s): its offsets cancel (%s)" % (h.get("err"), "+".join(cancel)),
+                     {"grouping": plan, "offsets": [t["off"] for t in c["txs"]], "real": h})
+            elif c["nondegenerate"]:
+                viol("agg:hydrate:parts_failed:%s%s" % (sh, sfx), "a group of the grouping could not be pre-aggregated (%s)" % h.get("err"),
+                     {"grouping": plan, "real": h})
+        elif h["res"] != "ok":
+            viol("agg:hydrate:failed:%s%s" % (sh, sfx), "hydrate_from failed (%s)" % h.get("err"),
+                 {"grouping": plan, "block_built_from": build_plans[br.get("ref", 0)], "hot": c["hot"], "real": h})
+        elif pvf and not h["same_body"] and "proj" in h and canon_real(h["proj"], with_off=False, any_proof=True) == bwant:
+            counts["hydrations_other_proof"] += 1
+            obs("agg:hydrate:proof_differs:%s%s" % (sh, sfx),
+                "the hydrated block carries another (valid) range proof for a re-created commitment than the block: not the identical block",
+                {"grouping": plan, "block_built_from": build_plans[br.get("ref", 0)],
+                 "block_proofs": proof_choice(br["proj"]), "hydrated_proofs": proof_choice(h["proj"])})
+        elif not h["same_body"]:
+            hp = canon_real(h["proj"], with_off=False, any_proof=pvf) if "proj" in h else {}
+            viol("agg:hydrate:body_differs:%s:%s%s" % (diff_field(bwant, hp), sh, sfx),
+                 "hydrated block body is not the block's body", {"grouping": plan, "want": bwant, "got": hp})
+        elif not h["same_hash"]:
+            viol("agg:hydrate:header_differs:%s%s" % (sh, sfx), "hydrated block header differs", {"grouping": plan})
+        elif not h["ids_ok"] or h["full_out"] != 1 or h["full_kern"] != 1:
+            viol("agg:compact:short_ids_or_full_elements", "compact block does not list the coinbase elements in full and "
+                 "the other kernels by short id", {"grouping": plan, "real": h})
+        else:
+            counts["hydrations_identical"] += 1
+            if h.get("same_repr") is False:
+                # same commitments, same bytes on the wire; the block built from ONE FeaturesAndCommit transaction keeps
+                # that representation of its inputs (aggregate of one is the identity), a hydrated block is CommitOnly
+                counts["hydrations_identical_inputs_representation_differs"] += 1
+        if "pool" in h:
+            judge_pool(c, i, plan, h, viol, counts, obs, br, b)
+
+
+
+
+def judge_pool(c, i, plan, h, viol, counts, obs, br, b):
+    """The node's route: PlanChecks says the pool returns exactly the grouping (each group once), nothing missing, and
+    hydrating from it gives the block; the pool lacking group j returns the others and reports j's kernels missing."""
+    pvf = bool(c.get("proof_variants"))
+    sh = shape(plan)
+    sfx = shape_suffix(c)
+    parts = [sorted(p) for p in c["via_pool"][i]["parts"]]
+    multi = ":multi_kernel_entry" if any(len(p) > 1 for p in parts) else ""
+    bwant = canon_expect(b["expect"], pvf)
+    bwant.pop("off")
+    for o in h["pool"]:
+        counts["pool_hydrations"] += o.get("n", 1)
+        det = {"grouping": plan, "pool_entries_kernels": parts, "nonce": o.get("nonce"), "nonces_with_this_outcome": o.get("n"), "real": o}
+        if o.get("res") == "setup":
+            raise ToolError("route through the pool: compact block under a chosen nonce could not be built: %s" % o.get("err"))
+        if o.get("res") == "panic":
+            viol("agg:via_pool:panic:%s%s" % (sh, sfx), "retrieve_transactions / hydrate_from panicked", det)
+        elif o["missing"]:
+            viol("agg:via_pool:missing_reported:%s%s" % (sh, multi),
+                 "the pool holds every transaction of the block, yet retrieve_transactions reports kernels missing", det)
+        elif sorted(o["found"]) != sorted(parts):
+            viol("agg:via_pool:retrieved_differs:%s%s" % (sh, multi),
+                 "retrieve_transactions does not return exactly the pool entries that make up the block, each once", det)
+        elif o["hyd"]["res"] != "ok":
+            viol("agg:via_pool:hydrate_failed:%s%s" % (sh, sfx), "hydrate_from failed (%s) on what the pool returned" % o["hyd"].get("err"), det)
+        elif pvf and not o["hyd"]["same_body"] and canon_real(o["hyd"]["proj"], with_off=False, any_proof=True) == bwant:
+            counts["pool_hydrations_other_proof"] += o.get("n", 1)      # reported on the direct route (agg:hydrate:proof_differs)
+        elif not o["hyd"]["same_body"]:
+            hp = canon_real(o["hyd"]["proj"], with_off=False, any_proof=pvf) if "proj" in o["hyd"] else {}
+            viol("agg:via_pool:body_differs:%s:%s%s" % (diff_field(bwant, hp), sh, sfx),
+                 "the block hydrated from what the pool returned is not the block", dict(det, want=bwant, got=hp))
+        elif not o["hyd"]["same_hash"]:
+            viol("agg:via_pool:header_differs:%s%s" % (sh, sfx), "the block hydrated through the pool has another header", det)
+        else:
+            counts["pool_hydrations_identical"] += o.get("n", 1)
+            if multi:
+                counts["pool_hydrations_identical_multi_kernel_entry"] += o.get("n", 1)
+    j = pool_drop(c, i)
+    for o in h.get("pool_lacking", []):
+        counts["pool_lacking"] += 1
+        det = {"grouping": plan, "pool_entries_kernels": parts, "lacking": j, "nonce": o.get("nonce"), "real": o}
+        rest = [p for k, p in enumerate(parts) if k != j]
+        if o.get("res") == "setup":
+            raise ToolError("route through the pool: compact block could not be built: %s" % o.get("err"))
+        if o.get("res") == "panic":
+            viol("agg:via_pool:panic:lacking:%s%s" % (sh, sfx), "retrieve_transactions panicked", det)
+        elif sorted(o["missing"]) != parts[j]:
+            viol("agg:via_pool:lacking:missing_differs:%s%s" % (sh, multi),
+                 "a pool lacking one entry does not report exactly that entry's kernels as missing", det)
+        elif sorted(o["found"]) != sorted(rest):
+            viol("agg:via_pool:lacking:retrieved_differs:%s%s" % (sh, multi),
+                 "a pool lacking one entry does not return exactly the other entries of the block", det)
+        else:
+            counts["pool_lacking_agree"] += 1
 
 
 def run(tier, replay):
     rep = Report(PID, tier, "model_checking")
     wd = vlib.workdir(PID, clean=True)
     thorough = tier == "thorough"
+    global NONCES
+    NONCES = 6 if thorough else 3
     counts = collections.Counter()
     observations = {}
+    timing = {}
+    import time
 
     def check_cases(cases, tag, record=True):
         hc = [to_harness_case(c)[0] for c in cases]
+        t_h = time.time()
         res, infos = _txbal.run_sharded("agg", hc, wd, tag, shards=4)
+        timing["harness_s"] = round(time.time() - t_h, 1)
         found = []
         for c in cases:
             def viol(sig, what, detail, c=c):
@@ -396,6 +589,8 @@ def run(tier, replay):
         return r, acts
 
     # (A)
+    import time
+    t_a = time.time()
     try:
         e = vlib.tlc("mc/MC_Agg", cfg + "_emit" if thorough else "mc/MC_Agg_emit", workers=1, coverage=False, timeout=1500)
         vlib.tlc_ok(e, "MC_Agg emit")
@@ -407,54 +602,76 @@ def run(tier, replay):
         raise ToolError("too few Agg cases emitted (%d)" % len(cases))
     for i, c in enumerate(cases):
         c["id"] = i
+    t_b = time.time()
     try:
         res, infos, found = check_cases(cases, "cases")
     finally:
+        t_c = time.time()
         mthread.join()
+    log("harness %.0fs" % timing.get("harness_s", 0))
+    log("emit %.0fs, harness + judging %.0fs, waited %.0fs more for the model run" % (t_b - t_a, t_c - t_b, time.time() - t_c))
     # the model verdict comes first: the emitted expectations are only meaningful if the invariants hold
     r, acts = model_result()
+    first_refused = counts.pop("first_operand_refused", None)
+    if counts["families_operand_refused"] and not rep.violations:
+        raise ToolError("a library transaction is refused by the real Transaction::validate (%d families): %s"
+                        % (counts["families_operand_refused"], first_refused))
 
-    # the binding is real: a perturbed expectation must be flagged by the same oracle
-    # ... and so must a flipped verdict: a re-creation family declared refused when presented flat, a
-    # double spend declared to have the aggregate of its first transaction
+    # (a violation found above takes precedence over the self-tests: they presume results that agree with the model)
     rec = next((c for c in cases if family_label(c) == "recreate" and len(c["fam"]) == 3), None)
     dbl = next((c for c in cases if family_label(c) in ("double_spend", "dup_output") and len(c["fam"]) == 2), None)
-    if rec is None or dbl is None:
-        raise ToolError("no re-creation / double-spend family among the emitted cases")
+    probe = next((c for c in cases if c["conflict_free"] and len(c["fam"]) == 3 and c["nondegenerate"]), None)
+    if rec is None or dbl is None or probe is None:
+        raise ToolError("no re-creation / double-spend / conflict-free family among the emitted cases")
     flat_ix = next(i for i, p in enumerate(rec["plans"]) if shape(p) == "flat")
-    for fam_case, mutate, wantsig in (
-            (rec, lambda x: x["plan_ok"].__setitem__(flat_ix, False), "agg:aggregate:accepted:flat:shape=recreate"),
-            (rec, lambda x: x["expect"]["outs"].pop(), "agg:aggregate:mismatch:outputs"),
-            (dbl, lambda x: (x.__setitem__("aggregable", True), x.__setitem__("plan_ok", [True] * len(x["plans"])),
-                             x.__setitem__("expect", {"err": False, "ins": [], "outs": [], "kerns": [], "off": 0}),
-                             x.__setitem__("block", {"expect": {"err": False, "ins": [], "outs": [], "kerns": [], "off": 0}, "total": 0})),
-             "agg:aggregate:failed:flat:shape=")):
-        p2 = json.loads(json.dumps(fam_case))
-        mutate(p2)
-        got = []
-        r2 = json.loads(json.dumps(res[fam_case["id"]]))
-        r2.setdefault("block", {"res": "err"})
-        judge(p2, r2, lambda sig, what, detail: got.append(sig), collections.Counter())
-        if not any(g.startswith(wantsig) for g in got) and not rep.violations:
-            raise ToolError("selftest: flipped verdict (%s) not flagged: %s" % (wantsig, got[:3]))
-    for want_lab in ("recreate", "respend", "cycle", "dup_output", "double_spend", "dup_output_after_cut", "double_spend_after_cut"):
-        if counts["families_" + want_lab] == 0:
-            raise ToolError("no family of shape %s was executed" % want_lab)
-    if counts["plans_refused_agree"] == 0 and not rep.violations:
-        raise ToolError("no refused plan was executed")
-    probe = next(c for c in cases if c["conflict_free"] and len(c["fam"]) == 3 and c["nondegenerate"])
-    for mutate, wantsig in ((lambda x: x["expect"].__setitem__("off", x["expect"]["off"] + 1), "agg:aggregate:mismatch:offset"),
-                            (lambda x: x["expect"]["kerns"].pop(), "agg:aggregate:mismatch:kernels"),
-                            (lambda x: x["block"]["expect"]["outs"].pop(0), "agg:block:mismatch:outputs")):
-        p2 = json.loads(json.dumps(probe))
-        mutate(p2)
-        got = []
-        judge(p2, res[probe["id"]], lambda sig, what, detail: got.append(sig), collections.Counter())
-        if not any(g.startswith(wantsig) for g in got):
-            raise ToolError("selftest: perturbed expectation (%s) not flagged: %s" % (wantsig, got[:3]))
-    if counts["plans_equal_and_valid"] == 0 or counts["deaggregations"] == 0 or counts["hydrations_identical"] == 0:
+    if not rep.violations:
+        # the binding is real: a perturbed expectation must be flagged by the same oracle
+        # ... and so must a flipped verdict: a re-creation family declared refused when presented flat, a
+        # double spend declared to have the aggregate of its first transaction
+        for fam_case, mutate, wantsig in (
+                (rec, lambda x: x["plan_ok"].__setitem__(flat_ix, False), "agg:aggregate:accepted:flat:shape=recreate"),
+                (rec, lambda x: x["expect"]["outs"].pop(), "agg:aggregate:mismatch:outputs"),
+                (dbl, lambda x: (x.__setitem__("aggregable", True), x.__setitem__("plan_ok", [True] * len(x["plans"])),
+                                 x.__setitem__("expect", {"err": False, "ins": [], "outs": [], "kerns": [], "off": 0}),
+                                 x.__setitem__("blocks", [{"expect": {"err": False, "ins": [], "outs": [], "kerns": [], "off": 0}, "total": 0, "prev": 0}])),
+                 "agg:aggregate:failed:flat:shape=")):
+            p2 = json.loads(json.dumps(fam_case))
+            mutate(p2)
+            got = []
+            r2 = json.loads(json.dumps(res[fam_case["id"]]))
+            r2.setdefault("blocks", [{"res": "err"}])
+            judge(p2, r2, lambda sig, what, detail: got.append(sig), collections.Counter())
+            if not any(g.startswith(wantsig) for g in got) and not rep.violations:
+                raise ToolError("selftest: flipped verdict (%s) not flagged: %s" % (wantsig, got[:3]))
+        for want_lab in ("recreate", "respend", "cycle", "dup_output", "double_spend", "dup_output_after_cut", "double_spend_after_cut"):
+            if counts["families_" + want_lab] == 0:
+                raise ToolError("no family of shape %s was executed" % want_lab)
+        if counts["plans_refused_agree"] == 0 and not rep.violations:
+            raise ToolError("no refused plan was executed")
+        for mutate, wantsig in ((lambda x: x["expect"].__setitem__("off", x["expect"]["off"] + 1), "agg:aggregate:mismatch:offset"),
+                                (lambda x: x["expect"]["kerns"].pop(), "agg:aggregate:mismatch:kernels"),
+                                (lambda x: x["blocks"][0]["expect"]["outs"].pop(0), "agg:block:mismatch:outputs"),
+                                (lambda x: x["blocks"][-1].__setitem__("total", x["blocks"][-1]["total"] + 1), "agg:block:mismatch:total_offset:prev=0"),
+                                (lambda x: x["via_pool"][1]["parts"].__setitem__(0, x["via_pool"][1]["parts"][0] + [99]), "agg:via_pool:retrieved_differs"),
+                                (lambda x: x["via_pool"][0]["parts"].__setitem__(0, [99]), "agg:via_pool:lacking:missing_differs")):
+            p2 = json.loads(json.dumps(probe))
+            mutate(p2)
+            got = []
+            judge(p2, res[probe["id"]], lambda sig, what, detail: got.append(sig), collections.Counter())
+            if not any(g.startswith(wantsig) for g in got):
+                raise ToolError("selftest: perturbed expectation (%s) not flagged: %s" % (wantsig, got[:3]))
+        if counts["plans_equal_and_valid"] == 0 or counts["deaggregations"] == 0 or counts["hydrations_identical"] == 0:
+            if not rep.violations:
+                raise ToolError("binding is vacuous: %s" % dict(counts))
+        # ... nor are the new dimensions: every form of cancelling offsets, both previous offsets, the route through the pool
+        # with multi-kernel entries, every representation of the inputs
         if not rep.violations:
-            raise ToolError("binding is vacuous: %s" % dict(counts))
+            for key in ["families_offsets_cancel_" + f for f in ("pair", "triple", "inner", "total", "remainder", "known_subset", "prev")] + [
+                    "deaggregations_remainder_cancels", "deaggregations_known_subset_cancels", "blocks_prev_zero", "blocks_prev_nonzero",
+                    "blocks_total_zero_prev_nonzero", "pool_hydrations_identical_multi_kernel_entry", "pool_lacking_agree",
+                    "operands_iv_co", "operands_iv_fc", "operands_iv_fcb", "families_mixed_input_variants"]:
+                if counts[key] == 0:
+                    raise ToolError("binding is vacuous: %s = 0" % key)
 
     fams = collections.Counter("lib%d:n=%d:%s" % (c["lib"], len(c["fam"]),
                                "independent" if c["independent"] else "chained" if c["conflict_free"] else family_label(c)) for c in cases)
@@ -463,21 +680,28 @@ def run(tier, replay):
     s = next(c for c in cases if c["conflict_free"] and not c["independent"] and len(c["fam"]) == 3)
     rep.coverage = {
         "states": r.distinct, "transitions": r.generated,
-        "traces_validated_against_impl": counts["plans"] + counts["deaggregations"] + counts["hydrations"] + counts["block_builds"],
+        "traces_validated_against_impl": counts["plans"] + counts["deaggregations"] + counts["hydrations"] + counts["block_builds"]
+        + counts["pool_hydrations"] + counts["pool_lacking"],
         "samples": [{"family": s["fam"], "lib": s["lib"], "txs": s["txs"], "plan": s["plans"][3], "expect": s["expect"],
                      "real": res[s["id"]]["plans"][3]},
                     {"family": rs["fam"], "lib": rs["lib"], "shape": family_label(rs), "hot": rs["hot"], "plan": rs["plans"][flat_ix],
                      "expect": rs["expect"], "real": rs_flat,
                      "refused_plans": [p for p, ok in zip(rs["plans"], rs["plan_ok"]) if not ok][:2]},
                     {"family": probe["fam"], "deaggregate": probe["deaggs"][:1] if probe["deaggs"] else None},
-                    {"hydrated": res[s["id"]]["block"]["hydrated"][:2]}],
+                    {"hydrated": (res[s["id"]]["blocks"][0].get("hydrated") or [])[:2]},
+                    next(({"family": c["fam"], "lib": c["lib"], "offsets": [t["off"] for t in c["txs"]], "cancel": c["cancel"],
+                           "expect_offset": c["expect"]["off"], "real": res[c["id"]]["plans"][0],
+                           "block_totals": [[b["prev"], b["total"], rb.get("total")] for b, rb in zip(c["blocks"], res[c["id"]]["blocks"])]}
+                          for c in cases if "inner" in (c.get("cancel") or [])), None)],
         "exhaustive_within_bounds": True,
         "model": {"config": cfg, "actions": {k: v[0] for k, v in acts.items()}, "wall_s": round(r.wall, 1)},
         "families": len(cases), "families_by_kind": dict(fams),
         "counts": dict(counts), "harness": infos, "observations": observations,
         "distinct_rule": "one trace = one real aggregate() per (family, permutation, bracketing), one deaggregate() per "
                          "(independent family, subset, aggregate order), one hydrate_from() per (aggregable family, grouping whose "
-                         "groups exist), one from_reward() per (aggregable family, chosen grouping)",
+                         "groups exist, previous offset), one from_reward() per (aggregable family, chosen grouping, previous offset), one "
+                         "retrieve_transactions() + hydrate_from() per (aggregable family, grouping, nonce) and one retrieve_transactions() "
+                         "per (aggregable family, grouping) on a pool lacking a group",
         "checker_cmd": "tlc mc/MC_Agg; tlc mc/MC_Agg_emit; h_txbal agg",
     }
     rep.assumptions = [
@@ -486,8 +710,15 @@ def run(tier, replay):
         "commitments each), not all transactions over 8 commitments; a commitment occurs at most 3 times as an output and 3 times "
         "as an input inside one family",
         "outputs carrying the same commitment carry the same range proof (proofs are a function of (value, blinding) here)",
-        "families whose non-zero offsets cancel (aggregate refuses the zero scalar) are outside the generated set",
-        "compact-block nonces are the random ones drawn by CompactBlock::from (one per grouping); short-id collisions not forced",
+        "cancelling offsets come from one library of independent transactions (L7: pair, triple, inner group, total, against the "
+        "previous header's total); previous offsets are 0 and 16384",
+        "compact-block nonces: the one CompactBlock::from draws (direct route: one per grouping) plus, on the route through the pool, "
+        "%d per grouping derived from VERIF_SEED and written into the serialised compact block (read back by the real reader); "
+        "a short id is taken to name its kernel (48-bit collisions not forced)" % (NONCES - 1),
+        "the pool on the route through it is a Pool whose entries are pushed directly (retrieve_transactions never consults the chain); "
+        "it holds the grouping between two unrelated library transactions",
+        "input representation per library transaction is fixed (position + library mod 3): CommitOnly, FeaturesAndCommit(plain), "
+        "FeaturesAndCommit(coinbase)",
         "a plan with a group that is not aggregable on its own (e.g. [a, c] of a: U->X, b: X->Y, c: Y,V->X) is specified as refused: "
         "the intermediate transaction would carry a commitment twice",
     ]
